@@ -9,7 +9,8 @@ ROOT = os.path.dirname(os.path.dirname(os.path.abspath(__file__)))
 # id -> (engine, technique, level text, level note, design ref)
 CHECKS = {
     'C12': ('I', 'bounded-exhaustive input enumeration vs. reference partition',
-            'Every phase sequence up to length 6 (quick) / 8 (thorough) over a 5-value alphabet, for three phase_step '
+            'Every phase sequence up to length 6 (quick) / 8 (thorough) over a 5-value alphabet (plus integer-typed and read-only copies, '
+            'and synthetic phases with up to 33 000 / 70 000 cycles), for three phase_step '
             'values and three input layouts, plus a fixed grid of long synthetic phases, is run through the real '
             'get_cycle_vector (both return_good settings) and compared with the wrap partition recomputed from the '
             'statement. Complete for the stated bound, nothing beyond it.',
@@ -123,15 +124,15 @@ CHECKS = {
             'The accuracy clause is over a continuum: decided on the grid only; tolerances documented in the evidence assumptions.',
             'DESIGN.md section 3 / C09'),
     'C15': ('H', 'explicit-state BFS over operation histories on real objects vs. reference model',
-            'Five containers, each built with the slice cache on and off and driven in lock-step, explored breadth-first over 24 '
-            'state-changing operations with canonical-state deduplication (full alphabet to depth 3/5, a 10-operation '
-            'sub-alphabet to depth 5/12); after every transition all stored metrics, subset / chain vectors, 10 '
+            'Seven containers (one with zero cycles), each built with the slice cache on and off and driven in lock-step, explored '
+            'breadth-first over 26 state-changing operations with canonical-state deduplication (full alphabet to depth 3/4, a 12-operation '
+            'sub-alphabet to depth 4/7; a container with cycles of thousands of samples to depth 2); after every transition all stored metrics, subset / chain vectors, 10 '
             'get_matching_cycles queries and three table exports are compared with a dict-of-lists model and between cache modes.',
             'Subset selections only when their metrics exist; augmented-mode values judged where both readings of the rule coincide.',
             'DESIGN.md section 3 / C15'),
     'C18': ('H+I', 'explicit-state BFS over edit histories vs. native nested indexing; YAML round trips per state',
-            'Defaults of four variants through three routes; BFS over set/del histories on 10 key paths x 7 values (depth 2/3 '
-            'full alphabet, depth 3/4 reduced) from every variant default config: mapping interface and every key path '
+            'Defaults of four variants through three routes; BFS over set / del / nested-index histories on 12 key paths x 9 values '
+            '(147 operations; full alphabet depth 2, one variant depth 3 in the thorough tier; 64-operation alphabet depth 3) from the default configs: mapping interface and every key path '
             'compared with a plain nested dict, both YAML routes round-tripped on every state, reloaded callable compared '
             'with the direct call for valid-valued states.',
             'Tuples/arrays compared as lists, as the property allows.',
